@@ -11,9 +11,13 @@ EXPLANATION = (
     "file-system/exit effect, no path to the aborting rollback API, &mut only to output buffers); --mmap — both Arena "
     "loaders return the unmodified io::Error of the failing system call (callers branch on ErrorKind::NotFound) and the "
     "mmap length is proven non-zero at the call; -A — the Analysis hooks receive shared references to types without "
-    "interior mutability, their results are ignored and the note callback only prints; --color — the option value flows only "
-    "into comparisons and the regions they guard call nothing but the colour switch. Not decided: that an analysis or the "
-    "diagnostics cannot panic on some file content (value-level arithmetic in util/search.rs and the closest-match printer)."
+    "interior mutability, their results are ignored and the note callback only prints, and (R7) the functions that only run "
+    "under -A (closure of the hooks minus what a plain push reaches) have every index, slice, unwrap, explicit panic and library "
+    "call with a documented panic discharged by the range engine - for the searcher this uses three-variable sum facts and the "
+    "struct invariant position <= haystack.len(), itself proven inductive and unwritable from outside; --color — the option value flows only "
+    "into comparisons and the regions they guard call nothing but the colour switch. Not decided: that the "
+    "failure diagnostics (closest-match printer, dijkstra hints) cannot panic on some file content; arithmetic overflow in -A-only "
+    "closures that no index depends on."
 )
 LEVEL_NOTE = "Undecided: panics inside print-only code whose safety rests on data invariants (closest-match printer, searcher)."
 
@@ -53,6 +57,7 @@ def run(ck):
     # ---- -A multiapply --------------------------------------------------------------------------------------
     check_analysis_hooks(ck, bad, abort_reach)
 
+    check_analysis_cannot_crash(ck)
     # ---- --color ------------------------------------------------------------------------------------------------
     check_color(ck, bad)
 
@@ -191,6 +196,76 @@ def check_analysis_hooks(ck, bad, abort_reach):
         ck.require(not eff and not ab, rule, "note callback %s" % fn.id,
                    "the analysis note callback can %s / reaches %s" % (eff, ab), fn.where(), ok_detail="prints only (no FS/exit/abort effect reachable)")
     ck.floor(rule, "analysis note callbacks", n, 2)
+
+
+def check_analysis_cannot_crash(ck):
+    """C14-R7: code that only runs under -A (the closure of the Analysis hooks minus everything the plain push reaches anyway)
+    has no undischarged index / bounds / unwrap / explicit-panic / library-panic site, and the struct invariants its proofs use are
+    inductive and not writable from outside."""
+    from .. import panics
+    from . import c11
+    prog, cg = ck.prog, ck.cg
+    rule = "C14-R7"
+    main = ck.anchor(A["main"])
+    hooks = sorted(f for f, fn in prog.fns.items() if fn.kind != "Closure" and
+                   (f.endswith("Analysis>::before_modifications") or f.endswith("Analysis>::after_modifications")))
+    if main is None or not ck.require(len(hooks) >= 2, rule, "Analysis hook implementations found", "%d hooks" % len(hooks)):
+        return
+    hookset = set(hooks)
+    scope = cg.closure(hooks)
+    plain = cg.closure([main.id], skip_site=lambda s: s.callee in hookset)
+    exclusive = scope - plain
+    ck.count("functions only reachable through an analysis hook", len(exclusive))
+    ck.floor(rule, "functions only reachable through an analysis hook", len(exclusive), 4)
+    obl, an = panics.analyse_scope(prog, cg, scope, libcalls=True)
+    hard = ("index", "bounds", "unwrap", "panic", "split_at", "map-index", "invariant", "libcall", "div", "alloc")
+    per_fn = {}
+    n = 0
+    for o in obl:
+        if o.fn.id not in exclusive or getattr(o, "libclass", None) == "print":
+            continue
+        kind = o.kind if o.kind in hard else "arith"
+        per_fn.setdefault(o.fn.id, []).append((kind, o))
+    for fid in sorted(per_fn):
+        items = per_fn[fid]
+        has_hard = any(k != "arith" for k, o in items)
+        for kind, o in items:
+            inst = "%s in %s: %s" % (o.kind, fid.split("::")[-3:] and "::".join(fid.split("::")[-2:]), c11.describe(o) if o.term.get("k") in ("call", "assert") else o.what)
+            where = o.fn.where(o.term) if o.term.get("k") in ("call", "assert", "return") else o.fn.where()
+            if kind != "arith":
+                n += 1
+                ck.require(bool(o.ok), rule, inst, "code that only runs under -A can crash here: %s" % o.detail, where, ok_detail=o.detail)
+            elif o.ok:
+                ck.ok(rule, inst, o.detail, where)
+            elif has_hard:
+                # the bounds proofs of this function treat its arithmetic as exact: an overflow that is not excluded undermines them
+                ck.violate(rule, inst, "arithmetic in a function whose index proofs rely on it is not shown free of overflow: %s" % o.detail, where)
+            else:
+                ck.info(rule, inst, "overflow not decided (no index or slice depends on it; wraps in the release profile): %s" % o.detail)
+    ck.floor(rule, "index / bounds / invariant / library sites in -A-only code", n, 4)
+    # the invariants are only as good as their encapsulation: nobody outside the type's own methods writes the fields they mention
+    for adt, invs in panics.STRUCT_INVARIANTS.items():
+        if adt not in prog.adts:
+            ck.violate(rule, "invariant anchor %s" % adt, "struct %s not found (anchor lost)" % adt)
+            continue
+        fields = {f for inv in invs for f in (inv[1], inv[3])}
+        for fn in prog.fns.values():
+            own = fn.id.startswith(adt + "::<") or ("<" + adt) in fn.id.split(" as ")[0]
+            if own:
+                continue
+            for bb, idx, s in fn.stmts():
+                if s["k"] != "assign":
+                    continue
+                pls = [s["lhs"]] if "p" in s["lhs"] else []
+                if s["rv"]["k"] in ("ref", "rawptr") and s["rv"].get("mut"):
+                    pls.append(s["rv"]["pl"])
+                for pl in pls:
+                    for pr in pl.get("p", []):
+                        if isinstance(pr, dict) and pr.get("adt") == adt and pr.get("name") in fields:
+                            ck.violate(rule, "only %s's methods write .%s" % (adt.split("::")[-1], pr["name"]),
+                                       "%s writes a field the invariant of %s speaks about" % (fn.id, adt), fn.where(s))
+        ck.ok(rule, "fields of %s's invariant are written by its own methods only" % adt.split("::")[-1],
+              "invariant %s" % ["%s <= %s%+d" % (i[1], ("len(" + i[3] + ")") if i[2] == "#" else i[3], i[4]) for i in invs])
 
 
 def check_color(ck, bad):
